@@ -38,6 +38,89 @@ HugeRecs == { [r EXCEPT !.mayRefuse = HugeOffset(r) > Max16] :
               r \in [what : {"shape"}, k : {"huge1_2", "huge2_1", "huge3_1", "hugep1_2"}, n : {0, 3}, m : {1},
                      c : {0}, v : {0}, f : {0}, mayRefuse : {FALSE}] }
 
+---------------------------------------------------------------------------
+(* Mode "off": every Offset16 field of every subtable format, taken from the *)
+(* OpenType layouts (GSUB: lookup types 1-6, 8; GPOS: lookup types 1-4, 6-8; *)
+(* sequence context = GSUB 5 / GPOS 7, chained sequence context = GSUB 6 /   *)
+(* GPOS 8).  F(name, comp, arr): the field `name` holds the offset of a      *)
+(* component `comp`; arr = TRUE for arrays of offsets to sibling components. *)
+(* comps: the variable-size components of the format (inline arrays are      *)
+(* components too: they necessarily precede everything an offset refers to). *)
+(* A case (format, big) makes the component `big` at least 64 KiB, everything*)
+(* else small.  Wherever an encoder places `big` before another component,   *)
+(* the offset of that component (and of later siblings of `big`) cannot be   *)
+(* written in 16 bits: the targets of the case.  The value may be refused or *)
+(* encoded correctly by another arrangement; it must not be written corrupt. *)
+F(name, comp, arr) == [name |-> name, comp |-> comp, arr |-> arr, rel |-> ""]
+\* R(name, comp): offsets counted from the start of a sub-structure (rule set, ligature set, mark
+\* array, base array); only a big sibling inside that structure (the component `comp`) pushes them
+R(name, comp) == [name |-> name, comp |-> comp, arr |-> TRUE, rel |-> comp]
+Cov == F("coverageOffset", "coverage", FALSE)
+SeqCtx1(id) == [id |-> id,
+  fields |-> {Cov, F("seqRuleSetOffsets[]", "ruleSets", TRUE), R("seqRuleOffsets[]", "rules")},
+  comps |-> {"coverage", "ruleSets", "rules"}]
+SeqCtx2(id) == [id |-> id,
+  fields |-> {Cov, F("classDefOffset", "classDef", FALSE),
+              F("classSeqRuleSetOffsets[]", "ruleSets", TRUE), R("classSeqRuleOffsets[]", "rules")},
+  \* ",nullSets": the same with every rule set offset NULL (the format allows it)
+  comps |-> {"coverage", "classDef", "ruleSets", "rules", "coverage,nullSets", "classDef,nullSets"}]
+SeqCtx3(id) == [id |-> id,
+  fields |-> {F("coverageOffsets[]", "coverages", TRUE)},
+  comps |-> {"coverages", "seqLookupRecords"}]
+Chain1(id) == [id |-> id,
+  fields |-> {Cov, F("chainedSeqRuleSetOffsets[]", "ruleSets", TRUE), R("chainedSeqRuleOffsets[]", "rules")},
+  comps |-> {"coverage", "ruleSets", "rules"}]
+Chain2(id) == [id |-> id,
+  fields |-> {Cov, F("backtrackClassDefOffset", "backtrackClassDef", FALSE),
+              F("inputClassDefOffset", "inputClassDef", FALSE), F("lookaheadClassDefOffset", "lookaheadClassDef", FALSE),
+              F("chainedClassSeqRuleSetOffsets[]", "ruleSets", TRUE), R("chainedClassSeqRuleOffsets[]", "rules")},
+  comps |-> {"coverage", "backtrackClassDef", "inputClassDef", "lookaheadClassDef", "ruleSets", "rules",
+             "coverage,nullSets", "backtrackClassDef,nullSets", "inputClassDef,nullSets", "lookaheadClassDef,nullSets"}]
+Chain3(id) == [id |-> id,
+  fields |-> {F("backtrackCoverageOffsets[]", "backtrackCoverages", TRUE), F("inputCoverageOffsets[]", "inputCoverages", TRUE),
+              F("lookaheadCoverageOffsets[]", "lookaheadCoverages", TRUE)},
+  comps |-> {"backtrackCoverages", "inputCoverages", "lookaheadCoverages", "seqLookupRecords"}]
+MarkAttach(id) == [id |-> id,
+  fields |-> {F("markCoverageOffset", "markCoverage", FALSE), F("baseCoverageOffset", "baseCoverage", FALSE),
+              F("markArrayOffset", "markArray", FALSE), F("baseArrayOffset", "baseArray", FALSE),
+              R("markAnchorOffsets[]", "markArray"), R("baseAnchorOffsets[]", "baseArray")},
+  comps |-> {"markCoverage", "baseCoverage", "markArray", "baseArray"}]
+
+Formats == {
+  [id |-> "gsub1_1", fields |-> {Cov}, comps |-> {}],
+  [id |-> "gsub1_2", fields |-> {Cov}, comps |-> {"coverage", "substituteArray"}],
+  [id |-> "gsub2_1", fields |-> {Cov, F("sequenceOffsets[]", "sequences", TRUE)}, comps |-> {"coverage", "sequences"}],
+  [id |-> "gsub3_1", fields |-> {Cov, F("alternateSetOffsets[]", "sequences", TRUE)}, comps |-> {"coverage", "sequences"}],
+  [id |-> "gsub4_1", fields |-> {Cov, F("ligatureSetOffsets[]", "ligatureSets", TRUE), R("ligatureOffsets[]", "ligatures")},
+                     comps |-> {"coverage", "ligatureSets", "ligatures"}],
+  SeqCtx1("gsub5_1"), SeqCtx2("gsub5_2"), SeqCtx3("gsub5_3"),
+  Chain1("gsub6_1"), Chain2("gsub6_2"), Chain3("gsub6_3"),
+  [id |-> "gsub8_1", fields |-> {Cov, F("backtrackCoverageOffsets[]", "backtrackCoverages", TRUE),
+                                 F("lookaheadCoverageOffsets[]", "lookaheadCoverages", TRUE)},
+                     comps |-> {"coverage", "backtrackCoverages", "lookaheadCoverages"}],
+  [id |-> "gpos1_1", fields |-> {Cov}, comps |-> {}],
+  [id |-> "gpos1_2", fields |-> {Cov}, comps |-> {"coverage", "valueArray"}],
+  [id |-> "gpos2_1", fields |-> {Cov, F("pairSetOffsets[]", "pairSets", TRUE)}, comps |-> {"coverage", "pairSets"}],
+  [id |-> "gpos2_2", fields |-> {Cov, F("classDef1Offset", "classDef1", FALSE), F("classDef2Offset", "classDef2", FALSE)},
+                     comps |-> {"coverage", "classDef1", "classDef2", "classMatrix"}],
+  [id |-> "gpos3_1", fields |-> {Cov, F("entryExitAnchorOffsets[]", "anchors", TRUE)}, comps |-> {"coverage", "anchors"}],
+  MarkAttach("gpos4_1"), MarkAttach("gpos6_1"),
+  SeqCtx1("gpos7_1"), SeqCtx2("gpos7_2"), SeqCtx3("gpos7_3"),
+  Chain1("gpos8_1"), Chain2("gpos8_2"), Chain3("gpos8_3") }
+
+\* fields whose 16-bit value is pushed beyond 0xFFFF when `big` precedes the component they refer to
+Null == ",nullSets"
+IsNull(big) == Len(big) > Len(Null) /\ SubSeq(big, Len(big) - Len(Null) + 1, Len(big)) = Null
+Base(big) == IF IsNull(big) THEN SubSeq(big, 1, Len(big) - Len(Null)) ELSE big
+Targets(fmt, big) == {f.name : f \in {g \in fmt.fields :
+                        IF IsNull(big) THEN g.rel = "" /\ ~g.arr /\ g.comp # Base(big)
+                        ELSE IF g.rel = "" THEN g.comp # big \/ g.arr ELSE g.rel = big}}
+OffCases == UNION { { [what |-> "shape", k |-> "off", t |-> fmt.id, big |-> b, fields |-> Targets(fmt, b),
+                       n |-> 0, m |-> 0, c |-> 0, v |-> 0, f |-> 0, mayRefuse |-> TRUE] : b \in fmt.comps } : fmt \in Formats }
+\* the complete list of (format, field) pairs, for the evidence; a format without a variable-size
+\* component (GSUB 1.1, GPOS 1.1) has an offset that cannot overflow
+FieldRecs == UNION { { [what |-> "field", t |-> fmt.id, field |-> g.name, pushable |-> fmt.comps # {}] : g \in fmt.fields } : fmt \in Formats }
+
 \* GDEF: header 12 or 14 bytes, glyph class definition first; gc = 4 is a format-1 class
 \* definition of 33000 glyphs with alternating classes: 6 + 2*33000 bytes
 GdefRecs == { [r EXCEPT !.mayRefuse = (r.gc = 4 /\ (r.mac # 0 \/ r.sets # 0) /\ 14 + 6 + 2 * 33000 > Max16)] :
@@ -57,7 +140,8 @@ Recs == CASE Mode = "shape" -> ShapeRecs
           [] Mode = "huge"  -> HugeRecs
           [] Mode = "gdef"  -> GdefRecs
           [] Mode = "lists" -> ListRecs
-          [] Mode = "all"   -> ShapeRecs \cup HugeRecs \cup GdefRecs \cup ListRecs
+          [] Mode = "off"   -> OffCases \cup FieldRecs
+          [] Mode = "all"   -> ShapeRecs \cup HugeRecs \cup OffCases \cup FieldRecs \cup GdefRecs \cup ListRecs
 
 Init == rec \in Recs
 Next == UNCHANGED rec
